@@ -13,6 +13,8 @@ def sig_for(meta, clause):
     # the cause, not the generator branch: a value ending in an odd number of backslashes escapes the
     # template character that follows the hole, whatever else it contains
     v = meta["value"]
+    if clause == "empty-argument":
+        return f"C04:{generic}:empty-argument"
     if clause != "dropped-silently" and (len(v) - len(v.rstrip("\\"))) % 2 == 1:
         cause = "trailing-backslash"
     elif clause in ("dollar", "dropped-silently"):
@@ -36,28 +38,43 @@ def run(ctx):
     thorough = ctx.tier == "thorough"
 
     # ------------------------------------------------ 1. validator / regex correspondence (Go regexp vs Lean Regex)
-    vlines = ctx.harness(["-mode", "regex", "-seed", ctx.seed, "-n", 20000 if thorough else 2500]) or []
+    vlines = ctx.harness(["-mode", "regex", "-seed", ctx.seed, "-n", 60000 if thorough else 2500]) or []
     vin, vexp = [], []
     for l in vlines:
         f = l.split("\t")
         if len(f) == 4 and f[0] == "V":
             vin.append(f[1] + "\t" + f[2])
             vexp.append(f[3])
+        elif f[0] == "C" and "\\=" in f:
+            k = f.index("\\=")    # `\=` cannot be produced by the escaping of a value
+            vin.append("\t".join(f[1:k]))
+            vexp.append("\t".join(f[k + 1:]))
     vout = ctx.driver("regex", vin) if vin else []
     vdiffs, vacc, vnames = 0, collections.Counter(), collections.Counter()
-    for i, (q, want, got) in enumerate(zip(vin, vexp, vout)):
-        name = q.split("\t")[0]
-        vnames[name] += 1
-        vacc[want] += 1
-        if want != got:
-            vdiffs += 1
-            if vdiffs <= 3:
-                ctx.broken(f"validator model and implementation disagree on {q!r}: impl {want} / model {got}",
-                           replay={"validator_input": q, "impl": want, "model": got})
+    mism = [i for i, (want, got) in enumerate(zip(vexp, vout)) if want != got]
+    # A model with a known finding also has a repaired variant (DESIGN.md §3): if the code was repaired upstream,
+    # the correspondence must hold for the repaired variant on EVERY input of that function instead.
+    repairable = ("ValidatePath\t", "compose:mainRewrite\t", "compose:rewriteFilter\t")
+    repaired_fns = set()
+    if mism and all(vin[i].startswith(repairable) for i in mism):
+        fns = {vin[i].split("\t")[0] for i in mism}
+        idx = [i for i, q in enumerate(vin) if q.split("\t")[0] in fns]
+        rout = ctx.driver("regex", ["repaired:" + vin[i] for i in idx])
+        if all(vexp[i] == r for i, r in zip(idx, rout)):
+            repaired_fns = fns
+            mism = []
+    for i, (q, want) in enumerate(zip(vin, vexp)):
+        vnames[q.split("\t")[0]] += 1
+        vacc[want if want in ("0", "1") else "str"] += 1
+    for i in mism:
+        vdiffs += 1
+        if vdiffs <= 3:
+            ctx.broken(f"validator model and implementation disagree on {vin[i]!r}: impl {vexp[i]} / model {vout[i]}",
+                       replay={"validator_input": vin[i], "impl": vexp[i], "model": vout[i]})
 
     # ------------------------------------------------ 2. search on the real pipeline, judged by the Lean lexer
     args = ["-mode", "search", "-seed", ctx.seed, "-workers", 12 if thorough else 4,
-            "-stride", 1 if thorough else 4, "-combos", 4 if thorough else 1]
+            "-stride", 1 if thorough else 4, "-combos", 12 if thorough else 1]
     if thorough:
         args.append("-thorough")
     if ctx.replay_in:
@@ -72,7 +89,7 @@ def run(ctx):
     jin, metas, stats, inconclusive = [], {}, {}, []
     for l in lines:
         tag = l[:1]
-        if tag in "FBP" and l[1:2] == "\t":
+        if tag in "FBPQ" and l[1:2] == "\t":
             jin.append(l)
         elif tag == "M":
             m = json.loads(l[2:])
@@ -91,7 +108,7 @@ def run(ctx):
     inside_samples, reject_samples = [], []
     nfind = 0
     for l, v in zip(jin, jout):
-        if l[0] != "P":
+        if l[0] not in "PQ":
             if l[0] == "B" and not v.startswith("base "):
                 ctx.broken(f"baseline files do not lex: {v}", replay={"baseline": l.split('\t')[1]})
             continue
@@ -103,6 +120,24 @@ def run(ctx):
         if m.get("panic"):
             # crashes are C05's business; here they only make the probe inconclusive
             verdicts["panic"] += 1
+            continue
+        if l[0] == "Q":
+            # empty string in a *string field: rejected, or same as unset, or skeleton of the benign run kept
+            changed = bool(m.get("conds_new") or m.get("conds_gone"))
+            if changed:
+                verdicts["empty-rejected-with-status"] += 1
+            elif m.get("same_as_unset"):
+                verdicts["empty-same-as-unset"] += 1
+            elif v == "ok empty-same":
+                verdicts["empty-keeps-skeleton"] += 1
+            else:
+                verdicts["fail-empty-argument"] += 1
+                outcome_by_leaf[leaf]["FAIL-empty-argument"] += 1
+                nfind += 1
+                ctx.finding(f"C04:{leaf}:empty-argument",
+                            f"{m['path']} = '' ({m['base']}/{m['variant']}): the empty string is accepted without a status "
+                            f"change, is not equivalent to the unset field, and removes an argument: {v}",
+                            {"meta": m, "verdict": v})
             continue
         if v == "ok absent":
             changed = bool(m.get("conds_new") or m.get("conds_gone"))
@@ -155,7 +190,9 @@ def run(ctx):
         "samples": inside_samples + reject_samples,
         "traces_validated_against_impl": len(vin) - vdiffs,
         "validator_correspondence": {"evaluations": len(vin), "diffs": vdiffs, "accepted": vacc.get("1", 0),
-                                     "rejected": vacc.get("0", 0), "validators": len(vnames)},
+                                     "rejected": vacc.get("0", 0), "composed_strings": vacc.get("str", 0),
+                                     "validators": len(vnames),
+                                     "functions_matching_the_repaired_variant": sorted(repaired_fns)},
         "pipeline_runs": stats.get("runs", 0),
         "probes": len(metas),
         "leaves_enumerated": leaves_total,
@@ -172,8 +209,9 @@ def run(ctx):
         "NGINX tokenises as the Lean model of ngx_conf_read_token (NGF.Model.NginxLex); no nginx binary in the sandbox",
         "metadata.name/namespace syntax (DNS-1123) is enforced by the API server independently of CRD schemas, so object names "
         "are probed with admissible odd names only; every other string leaf gets the full hostile family (CRD validation bypassed)",
-        "dataflow completeness (every field reaches the files only through its validator) is decided by the search on the "
-        "two base scenarios x three validity variants, not proved",
+        "dataflow completeness (every field reaches the files only through its validator) is decided by the search on "
+        "three fully populated base scenarios x four variants (valid, invalid NginxProxy, partially invalid routes, NGINX Plus), "
+        "not proved",
         "Go regexp == Lean Regex semantics on valid UTF-8 strings (checked by correspondence, proved only inside Lean)",
     ], trusted=[
         "Lean model of the NGINX tokeniser (environment model)",
